@@ -49,7 +49,7 @@ func finish(ev map[string]any) (string, bool) {
 	if counters == nil {
 		return "", false
 	}
-	need := []string{"A_pairs", "A_ok_bindings", "A_python_compared", "A_direct_calls", "B_unpackargs_calls", "B_wrongtype_target_checks", "B_none_skipped", "op_CALL", "op_CALL_VAR", "op_CALL_KW", "op_CALL_VAR_KW"}
+	need := []string{"A_pairs", "A_ok_bindings", "A_python_compared", "A_direct_calls", "B_unpackargs_calls", "B_wrongtype_target_checks", "B_none_skipped", "B_none_plus_second_argument_must_fail", "op_CALL", "op_CALL_VAR", "op_CALL_KW", "op_CALL_VAR_KW"}
 	for _, k := range need {
 		if counters[k] == 0 {
 			return "counter " + k + " is zero: the monitor did not observe what it needs", true
